@@ -100,7 +100,8 @@ func Spec() *run.Spec {
 	}
 	return &run.Spec{
 		ID: "C10", Level: "exploration",
-		Rule: "scan cases: one subject (entry point kind x element count) run against every pool size 1..count+3 (exhaustive, counts 0..70, " +
+		Rule: "Since round 7 the field phase contains scenes kept only when some field's UPPER canvas bound is an exact multiple of the block size and the cutoff is positive (12 quick / 60 thorough). " +
+			"scan cases: one subject (entry point kind x element count) run against every pool size 1..count+3 (exhaustive, counts 0..70, " +
 			"triangle/point/line-strip primitives, float1/2/3 scans and modifies) or against a drawn set of pool sizes (large counts); " +
 			"non-trivial = some call had a count not divisible by the pool size or fewer elements than workers; signature = kind/count bucket. " +
 			"field cases: one canvas scene (1-3 asymmetric fields, 1-3 attributes, cubes-per-unit, cutoff) accumulated with AddField, AddFieldParallel and " +
